@@ -17,8 +17,10 @@
                requests: list (method:string url:string)   url = "http://" Host RequestURI
                error class (0 none 1 notfound 2 forbidden 3 gone 4 uritoolong 5 unexpected 6 other)
                NotFound(err):bool  has_data:bool  data: list (kind id)  panicked:bool
-               content:bool (every returned element carries the text the server sent for it;
-               the model abstracts an element to (kind, id): decoding keeps its content)
+               content:bool (Go-side: every returned element carries the text the server sent)
+               texts: list int (per returned element the number of the text it carries; judged
+               here against Types.text_index; the model abstracts an element to (kind, id):
+               decoding keeps its content)
    tag 2 (sequence): configured-base limiter | endpoint status body observed (first call)
                      | endpoint status body observed (second call)
                      | has_data:bool data (the first call's result re-read after the second call)
@@ -93,13 +95,14 @@ Record observed := {
   ob_has_data : bool;
   ob_data : list el;
   ob_panic : bool;
-  ob_content : bool }.
+  ob_content : bool;
+  ob_texts : list Z }.
 
 Definition pobserved : P observed :=
   ev <- plist pint ;; rq <- plist (ppair pstr pstr) ;; c <- pint ;; nf <- pbool ;;
-  hd <- pbool ;; d <- plist pel ;; pn <- pbool ;; ct <- pbool ;;
+  hd <- pbool ;; d <- plist pel ;; pn <- pbool ;; ct <- pbool ;; tx <- plist pint ;;
   ret {| ob_events := ev; ob_requests := rq; ob_class := c; ob_notfound := nf;
-         ob_has_data := hd; ob_data := d; ob_panic := pn; ob_content := ct |}.
+         ob_has_data := hd; ob_data := d; ob_panic := pn; ob_content := ct; ob_texts := tx |}.
 
 Definition el_eqb (a b : el) : bool := (fst a =? fst b) && (snd a =? snd b).
 Definition els_eqb := list_eqb el_eqb.
@@ -117,10 +120,17 @@ Definition event_code (e : event) : Z := match e with EvWait => 1 | EvRequest _ 
 Definition requests_of (t : list event) : list (str * str) :=
   flat_map (fun e => match e with EvRequest m u => [(lit m, u)] | EvWait => [] end) t.
 
+(* content: every returned element carries the text the body generator gave to (kind, id) —
+   decided here, on the transported text numbers (the Go-side flag is kept as a fallback) *)
+Definition texts_ok (ob : observed) : bool :=
+  if ob_has_data ob
+  then list_eqb Z.eqb (map (fun e => text_index (fst e) (snd e)) (ob_data ob)) (ob_texts ob)
+  else match ob_texts ob with [] => true | _ => false end.
+
 (* judgement 1: the model's outcome equals the observation *)
 Definition model_agrees (cfg : str) (w : world) (ep : endpoint) (ob : observed) : bool :=
   let o := call_w cfg w ep in
-  negb (o_bad o) && ob_content ob &&
+  negb (o_bad o) && ob_content ob && texts_ok ob &&
   list_eqb Z.eqb (map event_code (o_trace o)) (ob_events ob) &&
   list_eqb (fun a b => str_eqb (fst a) (fst b) && url_eqb (snd a) (snd b))
            (requests_of (o_trace o)) (ob_requests ob) &&
@@ -141,7 +151,7 @@ Definition spec_agrees (cfg : str) (w : world) (ep : endpoint) (ob : observed) :
   let want_events :=
     (if waits w ep then [1] else []) ++
     (if permitted w ep then repeat 2 (S (List.length hops)) else []) in
-  negb (ob_panic ob) && ob_content ob &&
+  negb (ob_panic ob) && ob_content ob && texts_ok ob &&
   list_eqb Z.eqb want_events (ob_events ob) &&
   if permitted w ep then
     (* one GET of the documented URL, then exactly the hops the server named; then the
